@@ -38,7 +38,7 @@ def main():
         print(f"property {a.property} has no check", file=sys.stderr)
         return 2
     mod = importlib.import_module("areas." + AREAS[a.property])
-    ctx = common.Ctx(a.property, a.tier, seed)
+    ctx = common.Ctx(a.property, a.tier, seed, keep_replays=bool(a.replay))
     try:
         if a.replay:
             mod.replay(ctx, a.replay)
